@@ -180,9 +180,10 @@ def m_m1(ctx, case):
                 key = "c-squawk-rejects-constant-field"
             elif fn == "idcode" and rc[0] == "exc" and rp[0] == "ok" and bits.field(int(a0, 16), len(a0) * 4, 20, 32) in (0, 8191):
                 key = "c-squawk-rejects-constant-field"
-            elif fn == "cprNL" and cpr.near_transition(float(a0)):
-                ctx.amb()
-                continue
+            elif fn == "cprNL" and cpr.near_transition(float(a0), 5e-13):
+                # the two twins evaluate the same closed form with different maths libraries (numpy vs libm): on a few tens
+                # of doubles around a transition latitude the rounding of cos / arccos decides.  Keyed per transition.
+                key = "cprNL-ulp-noise-at-transition-NL%d" % cpr.nearest_transition(float(a0))[0]
             ctx.violation(key, fn=fn, args=args, c=rc, py=rp)
         ctx.nontrivial(("m1", fn, repr(args)))
     ctx.hit("m1_" + fn, len(case["args"]))
